@@ -479,6 +479,9 @@ struct Minimiser {
 			if (best.contains("steps"))
 				for (size_t i = 0; i < best["steps"].size() && budget(); i++) {
 					json::json_pointer sp = json::json_pointer("/steps") / i;
+					// a step that carries an expectation keyed to its own arguments is removed whole or not at all
+					if (best[sp].contains("refusal") || best[sp].contains("pin"))
+						continue;
 					for (const char *k : {"errno", "falloc", "fcb", "fcbv", "cberrno", "cb2", "cb2i", "cb2f", "at"})
 						try_erase_key(sp, k);
 					if (best[sp].contains("src"))
